@@ -24,6 +24,7 @@ def main():
     try:
         if a.cmd == "setup":
             core.build()
+            core.build_reference()
             print("setup ok")
             return 0
         seed = int(os.environ.get("VERIF_SEED", "0") or 0)
